@@ -71,10 +71,10 @@ structure Route where
   pos : Nat
   deriving Repr, DecidableEq
 
-/-- the `Route{…}` literal of `register` for an already normalised `raw` -/
+/-- the `Route{…}` literal of `register` (`isStar := pathPretty == "/*"`, `isRoot := pathClean == "/"`) -/
 def mkRoute (cfg : Cfg) (po : Bytes → List Bytes) (use : Bool) (p : Bytes) (hs : List Nat) : Route :=
   let raw := rawOf p
-  { use := use, star := cleanOf cfg raw == [47, 42], root := cleanOf cfg raw == [47],
+  { use := use, star := prettyOf cfg raw == [47, 42], root := cleanOf cfg raw == [47],
     raw := raw, pretty := prettyOf cfg raw, path := cleanOf cfg raw, params := po raw,
     handlers := hs, pos := 0 }
 
@@ -83,7 +83,7 @@ path, root/star derived from it, prefix = the placeholder's `Path` as registered
 def addPrefix (cfg : Cfg) (po : Bytes → List Bytes) (pre : Bytes) (r : Route) : Route :=
   let raw := getGroupPath pre r.raw
   { r with raw := raw, pretty := prettyOf cfg raw, path := cleanOf cfg raw, params := po raw,
-           root := cleanOf cfg raw == [47], star := cleanOf cfg raw == [47, 42] }
+           root := cleanOf cfg raw == [47], star := prettyOf cfg raw == [47, 42] }
 
 /-- an element of `app.stack[m]` before startup: a route, or the placeholder of a mounted app
 (`Route.mount = true`, `Route.group.app` = the sub-app, here: its finished stacks) -/
